@@ -75,7 +75,7 @@ Reset(r) ==
   /\ thr' = {}
 
 SpecEvent(r) ==
-  /\ r.ev \notin {"reset", "release", "ready", "quiet", "eof"}
+  /\ r.ev \notin {"reset", "release", "ready", "quiet", "eof", "nest"}
   /\ "prog" \in DOMAIN s
   /\ \/ \E e \in NextEvents(s) :
           /\ Matches(e, r)
@@ -115,6 +115,18 @@ Quiet(r) ==
   /\ (s.sinceWake /\ s.ph = "step" => r.woken)
   /\ UNCHANGED <<s, thr, caller>>
 
+\* C08, nesting: a callback of a spawn macro nested inside a spawned branch runs on a thread whose name extends
+\* the enclosing thread's name by `_join_<b>` per level (`join_<b>` directly under an unnamed caller)
+RECURSIVE NestedName(_, _)
+NestedName(base, path) ==
+  IF path = <<>> THEN base
+  ELSE LET b == ToString(Head(path)) IN NestedName(IF base = "" THEN "join_" \o b ELSE base \o "_join_" \o b, Tail(path))
+NestEv(r) ==
+  /\ r.ev = "nest"
+  /\ "prog" \in DOMAIN s
+  /\ r.thr = NestedName(caller.name, r.path)
+  /\ UNCHANGED <<s, thr, caller>>
+
 Eof(r) ==
   /\ r.ev = "eof"
   /\ s.ph = "closed" \/ (s.ph = "ended" /\ (s.dropsFree \/ s.garbage = {}))
@@ -123,7 +135,7 @@ Eof(r) ==
 TraceNext ==
   /\ l <= Len(Rec)
   /\ l' = l + 1
-  /\ LET r == Rec[l] IN Reset(r) \/ SpecEvent(r) \/ Release(r) \/ Ready(r) \/ Quiet(r) \/ Eof(r)
+  /\ LET r == Rec[l] IN Reset(r) \/ SpecEvent(r) \/ Release(r) \/ Ready(r) \/ Quiet(r) \/ Eof(r) \/ NestEv(r)
 
 TraceSpec == TraceInit /\ [][TraceNext]_tvars
 
